@@ -39,7 +39,13 @@ func runC10(c *core.Case) {
 		}
 		sq = append(sq, a)
 	}
-	if r.P(0.004) { // long lists around batch sizes: length and order must survive chunking/parallelisation
+	if r.P(0.0003) || (c.Tier == "thorough" && r.P(0.0003)) { // very long lists (2^15 .. 2^17 + 3)
+		for n := veryLongLen(r); len(sq) < n; {
+			z := genZoom(r)
+			sq = append(sq, genID(r, z, z, z, z))
+		}
+		c.Tag("very-long-list")
+	} else if r.P(0.004) { // long lists around batch sizes: length and order must survive chunking/parallelisation
 		for n := longLen(r); len(sq) < n; {
 			z := genZoom(r)
 			sq = append(sq, genID(r, z, z, z, z))
